@@ -47,6 +47,8 @@ DEFAULTS = {
     'amp_base': 1.0,           # amplitudes are amp_base + 0.25 * k (distinct per spike)
     'sparse_cols': None,       # explicit (n_templates, n_loc) column table (may contain -1)
     'sparse_zero': None,       # per template: index of an all-zero stored column, or None
+    'dc_offset': None,         # [(template, channel, offset)]: constant added to one channel of a template
+    'sparse_neg': None,        # per template: index of a stored column that is negative-only, or None
     'feat_rows': None, 'tfeat_rows': None,     # explicit row tables for 'sparse_rows_list'
     'tsv': {},                 # extra per-cluster TSV files {name: {'field': f, 'values': {id: v}}}
     'fill': 0,
@@ -238,6 +240,9 @@ def make_dataset(d, spec=None):
     T = default_templates(nt, nsw, nc, fill, s['profile']).astype(s['template_dtype'])
     if s['template_dtype'] == 'float64':
         T = T * (1.0 + 2.0 ** -30)      # values that no float32 holds (same order, same ratios)
+    for (t_, c_, off_) in (s['dc_offset'] or []):
+        if t_ < nt and c_ < nc:
+            T[t_][:, c_] += off_          # a channel with a constant offset (all samples positive)
     Tclean = T
     if s['content'] == 'nan_template':
         T[nt - 1] = np.nan
@@ -254,9 +259,13 @@ def make_dataset(d, spec=None):
         for t in range(nt):
             for j in range(nloc):
                 zero = s['sparse_zero'] is not None and s['sparse_zero'][t] == j
+                neg = s['sparse_neg'] is not None and s['sparse_neg'][t] == j
                 if cols[t, j] != -1 and not zero:
-                    data[t][:, j] = T[t][:, cols[t, j]]
-                    Tfull[t][:, cols[t, j]] = T[t][:, cols[t, j]]
+                    v = T[t][:, cols[t, j]]
+                    if neg:
+                        v = -np.abs(v)       # a purely negative deflection: no sample above zero
+                    data[t][:, j] = v
+                    Tfull[t][:, cols[t, j]] = v
                 elif cols[t, j] == -1 and t % 2 == 1:
                     # an unused (-1) column is not guaranteed to hold zeros: leave garbage in it
                     data[t][:, j] = T[t][:, (t + j) % nc] * 0.5 + 0.25
@@ -394,20 +403,24 @@ def make_dataset(d, spec=None):
     # --- spike attributes
     truth['spike_attributes'] = {}
     if s['attrs'] in ('1d', '2d', 'wronglen', 'col', 'row'):
+        # attribute names: a free name, and names that merely begin with a reserved word
+        # (spike_clusters.npy is reserved, spike_clusters_orig.npy is an attribute)
+        aname = {'1d': 'depthx', '2d': 'clusters_orig', 'col': 'times_ms', 'row': 'amplitudes_uv',
+                 'wronglen': 'depthx'}[s['attrs']]
         if s['attrs'] == '1d':
             a = np.arange(ns) * 1.5
-            truth['spike_attributes']['depthx'] = a
+            truth['spike_attributes'][aname] = a
         elif s['attrs'] == '2d':
             a = np.arange(ns * 2).reshape(ns, 2) * 0.5
-            truth['spike_attributes']['depthx'] = a
+            truth['spike_attributes'][aname] = a
         elif s['attrs'] in ('col', 'row'):
             # stored with a singleton dimension: exposed squeezed, like every other array
             a = np.arange(ns) * 2.5
-            truth['spike_attributes']['depthx'] = a
+            truth['spike_attributes'][aname] = a
             a = a.reshape((ns, 1) if s['attrs'] == 'col' else (1, ns))
         else:
             a = np.arange(ns + 3) * 1.0
-        save('spike_depthx.npy', a)
+        save('spike_%s.npy' % aname, a)
 
     # --- raw data
     truth['raw'] = None
